@@ -229,8 +229,7 @@ def run_tlc(ctx, module, cfg=None, workers=None, timeout=600, simulate=None, dep
     cfg = cfg or (module + ".cfg")
     w = workers or min(NCPU, 12)
     cmd = ["timeout", str(timeout), "java"]
-    if heap:
-        cmd.append("-Xmx" + heap)
+    cmd.append("-Xmx" + (heap or "6g"))
     cmd += ["-Xss512m", "-XX:+UseParallelGC"]
     if dfs:
         cmd.append("-Dtlc2.tool.queue.IStateQueue=StateDeque")
